@@ -73,6 +73,13 @@ CHECKS = {
                  "trichotomy, <= is < or ==. 'Never equal to a non-URL' is type-dispatch glue probed on the implementation only."),
         "design_ref": "DESIGN.md section 7 C10",
     },
+    "C13": {
+        "text": ("Proved: raw_parts re-compose to raw_path (every URL whose path is empty or rooted under an authority), the suffix is a tail of "
+                 "the name, u / s is definitionally u.joinpath(s), with_suffix keeps the raw stem byte for byte and appends the quoted suffix. "
+                 "PARTIAL: name/parent of u / s, joinpath associativity and with_name's parent are the extracted predicate c13_pred checked on "
+                 "the implementation (26 base shapes x 21 segments, all pairs) and the model, not proved. Known finding F28."),
+        "design_ref": "DESIGN.md section 7 C13",
+    },
     "C15": {
         "text": ("Unbounded theorems: the model of normalize_path equals RFC 3986 5.2.4 remove_dot_segments (transcribed independently, "
                  "string level) on every rooted path, leaves no dot segment and is idempotent. The tie to the Python source is a "
